@@ -129,13 +129,13 @@ theorem syncPost_ff (n : Net) (st : HState) (slot : Nat) : (syncPost n st slot).
   by_cases h1 : (slot % n.spe == n.spe / 2 - 2 && n.epoch slot % n.epp == n.epp - syncPrep) = true <;>
   by_cases h2 : (slot == n.lastSlotOfPeriod (n.period (n.epoch slot))) = true <;> simp [h1, h2]
 
-theorem syncTick_sinv (n : Net) {st : HState} {m : DMon} {lt : Option Nat} {now : Nat} {pend : Option Nat}
-    (t0 clock : Nat) (r1 r2 : FetchRes) (h : SInv n st m lt now pend) (hc : Cand lt now t0)
-    (hq : ∀ r, pend = some r → ¬ n.periodOfSlot r < n.periodOfSlot t0) :
+theorem syncTick_core (n : Net) {st : HState} {m : DMon} {now : Nat} (t0 clock : Nat) (r1 r2 : FetchRes)
+    (hok : m.ok = true) (hs1 : st.fetchFirst = true → st.fetchCur = true ∧ st.fetchNext = true)
+    (hdueLe : ∀ K A, m.due K = some A → K ≤ n.periodOfSlot now + 1) (hnow : now ≤ t0)
+    (hA : st.fetchFirst = true ∨ Cov .sync st m (n.periodOfSlot t0))
+    (hB : Cov .sync st m (n.periodOfSlot t0 + 1) ∨ st.fetchNext = true) :
     SInv n (syncTick n st t0 clock r1 r2).1 (drun .sync n m (syncTick n st t0 clock r1 r2).2) (some t0) t0 none := by
-  have hpm := periodOfSlot_mono n hc.2
-  have hA := h.A t0 hc
-  have hB := h.B t0 hc
+  have hpm := periodOfSlot_mono n hnow
   obtain ⟨store, ff, fc, fn, ic⟩ := st
   -- what remains to be shown once both periods are covered after the fetches
   have fin : ∀ (s : HState) (m2 : DMon), m2.ok = true → s.fetchFirst = false →
@@ -148,7 +148,7 @@ theorem syncTick_sinv (n : Net) {st : HState} {m : DMon} {lt : Option Nat} {now 
       rcases hk K A hA' with h1 | h1 | h1
       · omega
       · omega
-      · have := h.dueLe K A h1; omega
+      · have := hdueLe K A h1; omega
     have hall : ∀ K, n.periodOfSlot t0 ≤ K → Cov .sync (syncPost n s t0) m2 K := by
       intro K hK
       apply syncPost_cov n t0 K hK
@@ -169,11 +169,10 @@ theorem syncTick_sinv (n : Net) {st : HState} {m : DMon} {lt : Option Nat} {now 
   cases ff
   · -- regular tick: execute, then fetch
     have hcov : Cov .sync ⟨store, false, fc, fn, ic⟩ m (n.periodOfSlot t0) := by
-      rcases hA with h1 | ⟨r, hr, hlt⟩ | h1
+      rcases hA with h1 | h1
       · cases h1
-      · exact absurd hlt (hq r hr)
       · exact h1
-    have hx := dstep_exec .sync n t0 clock (st := ⟨store, false, fc, fn, ic⟩) h.ok (fun _ => hcov)
+    have hx := dstep_exec .sync n t0 clock (st := ⟨store, false, fc, fn, ic⟩) hok (fun _ => hcov)
     simp only [execOf] at hx
     have pf := syncPF_post n ⟨store, false, fc, fn, ic⟩
       (drun .sync n m (syncProcessExecution ⟨store, false, fc, fn, ic⟩ (n.periodOfSlot t0) t0 clock))
@@ -192,13 +191,13 @@ theorem syncTick_sinv (n : Net) {st : HState} {m : DMon} {lt : Option Nat} {now 
       · exact Or.inr (Or.inl h1)
       · exact Or.inr (Or.inr (by rw [hx.2] at h1; exact h1))
   · -- fetch-first tick (only the first tick of a run): fetch, then execute
-    have hs1 := h.s1 rfl
+    have hs1 := hs1 rfl
     have pf := syncPF_post n ⟨store, false, fc, fn, ic⟩ m (n.periodOfSlot t0) clock r1 r2
     have hc0 := pf.covp (Or.inl hs1.1)
     have hc1 := pf.covn (Or.inl hs1.2)
     have hx := dstep_exec .sync n t0 clock (st := (syncProcessFetching n ⟨store, false, fc, fn, ic⟩ (n.periodOfSlot t0) clock r1 r2).1)
       (m := drun .sync n m (syncProcessFetching n ⟨store, false, fc, fn, ic⟩ (n.periodOfSlot t0) clock r1 r2).2)
-      (by rw [pf.okeq]; exact h.ok) (fun _ => hc0)
+      (by rw [pf.okeq]; exact hok) (fun _ => hc0)
     simp only [execOf] at hx
     simp only [syncTick, if_true, drun_append]
     rw [show n.period (n.epoch t0) = n.periodOfSlot t0 from rfl]
@@ -206,6 +205,17 @@ theorem syncTick_sinv (n : Net) {st : HState} {m : DMon} {lt : Option Nat} {now 
     intro K A hA'
     rw [hx.2] at hA'
     exact pf.keys K A hA'
+
+theorem syncTick_sinv (n : Net) {st : HState} {m : DMon} {lt : Option Nat} {now : Nat} {pend : Option Nat}
+    (t0 clock : Nat) (r1 r2 : FetchRes) (h : SInv n st m lt now pend) (hc : Cand lt now t0)
+    (hq : ∀ r, pend = some r → ¬ n.periodOfSlot r < n.periodOfSlot t0) :
+    SInv n (syncTick n st t0 clock r1 r2).1 (drun .sync n m (syncTick n st t0 clock r1 r2).2) (some t0) t0 none := by
+  apply syncTick_core n t0 clock r1 r2 h.ok h.s1 h.dueLe hc.2
+  · rcases h.A t0 hc with h1 | ⟨r, hr, hlt⟩ | h1
+    · exact Or.inl h1
+    · exact absurd hlt (hq r hr)
+    · exact Or.inr h1
+  · exact h.B t0 hc
 
 theorem Cand.mono {lt : Option Nat} {now now' t : Nat} (h : Cand lt now' t) (hle : now ≤ now') : Cand lt now t :=
   ⟨h.1, Nat.le_trans hle h.2⟩
